@@ -238,12 +238,15 @@ Definition sid_case_ok (c : sid_case) : bool :=
   end.
 
 (* The cookie-value model against net/http on arbitrary values: the rendering
-   by http.SetCookie and the parse by http.Request.Cookie (ck_found = false:
-   the cookie was not returned). *)
-Record cookie_case := { ck_value : bytes; ck_wire : bytes; ck_found : bool; ck_parsed : bytes }.
+   by http.SetCookie (ck_via_set; otherwise the value was put into a Cookie
+   header as it is) and the parse by http.Request.Cookie (ck_found = false: the
+   cookie was not returned). *)
+Record cookie_case := {
+  ck_via_set : bool; ck_value : bytes; ck_wire : bytes; ck_found : bool; ck_parsed : bytes }.
 
 Definition cookie_case_ok (c : cookie_case) : bool :=
-  bytes_eqb (sanitize_cookie_value (ck_value c)) (ck_wire c) &&
+  (if ck_via_set c then bytes_eqb (sanitize_cookie_value (ck_value c)) (ck_wire c)
+   else bytes_eqb (ck_value c) (ck_wire c)) &&
   match parse_cookie_value (ck_wire c) with
   | Some v => ck_found c && bytes_eqb v (ck_parsed c)
   | None => negb (ck_found c)
@@ -274,18 +277,45 @@ Definition cuid_case_ok (c : cuid_case) : bool :=
                              (cc_sec c) (cc_nsec c) in
   bytes_eqb id (cc_id c) && (cs_last_time st =? cc_lt' c) && (cs_last_counter st =? cc_lc' c).
 
-(* kc_count concurrent calls while the virtual clock stands still: the set of
-   results must be that of kc_count calls one after the other. *)
+(* kc_count concurrent calls while the virtual clock stands still: the results,
+   sorted, must be those of kc_count calls one after the other, sorted. *)
 Record conc_case := {
   kc_mac : bytes; kc_lt : N; kc_lc : N; kc_sec : Z; kc_nsec : N; kc_count : N;
   kc_ids : list bytes; kc_lt' : N; kc_lc' : N }.
+
+(* merge sort of IDs in Go's string order (the harness sorts what it saw) *)
+Fixpoint merge_ids (a : list bytes) : list bytes -> list bytes :=
+  fix merge_aux (b : list bytes) : list bytes :=
+    match a, b with
+    | [], _ => b
+    | _, [] => a
+    | x :: a', y :: b' => if lex_lt y x then y :: merge_aux b' else x :: merge_ids a' b
+    end.
+Fixpoint merge_pairs (l : list (list bytes)) : list (list bytes) :=
+  match l with
+  | a :: b :: t => merge_ids a b :: merge_pairs t
+  | _ => l
+  end.
+Fixpoint merge_all (fuel : nat) (l : list (list bytes)) : list bytes :=
+  match fuel with
+  | O => concat l
+  | S f => match l with [] => [] | [a] => a | _ => merge_all f (merge_pairs l) end
+  end.
+Definition sort_ids (l : list bytes) : list bytes := merge_all (length l) (map (fun x => [x]) l).
+
+Fixpoint ids_eqb (a b : list bytes) : bool :=
+  match a, b with
+  | [], [] => true
+  | x :: a', y :: b' => bytes_eqb x y && ids_eqb a' b'
+  | _, _ => false
+  end.
 
 Definition conc_case_ok (c : conc_case) : bool :=
   let st := {| cs_last_time := kc_lt c; cs_last_counter := kc_lc c |} in
   let times := repeat (kc_sec c, kc_nsec c) (N.to_nat (kc_count c)) in
   let st' := cuid_run_state (kc_mac c) st times in
   (N.of_nat (length (kc_ids c)) =? kc_count c) &&
-  forallb (fun m => existsb (bytes_eqb m) (kc_ids c)) (cuid_run (kc_mac c) st times) &&
+  ids_eqb (sort_ids (cuid_run (kc_mac c) st times)) (kc_ids c) &&
   (cs_last_time st' =? kc_lt' c) && (cs_last_counter st' =? kc_lc' c).
 
 Definition sid_mismatches (cs : list sid_case) : list N := failing sid_case_ok cs 0.
